@@ -483,9 +483,13 @@ class Layouts:
             return Zero("Pointer", (A[0], ev(1)), call, env)
         if n in ("Rebuild", "Default", "ExprAdapter", "ExprSymmetricAdapter", "ExprValidator", "Lazy", "NullStripped",
                  "Enum", "EnumConstruct", "Mapping", "Optional", "Slicing", "Indexing", "Hex", "Peek", "Compiled"):
-            return Wrap(n, ev(0), A[1:], call)
+            w = Wrap(n, ev(0), A[1:], call)
+            w.subcon_nodes = {id(A[0])}
+            return w
         if n == "Filter":
-            return Wrap(n, ev(1), A[:1], call)
+            w = Wrap(n, ev(1), A[:1], call)
+            w.subcon_nodes = {id(A[1])}
+            return w
         if n == "Bitwise":
             return BitsS(ev(0))
         if n == "Prefixed":
@@ -547,6 +551,27 @@ class Layouts:
         init = self.prog.find_method(cls, "__init__")
         if call is None:
             return Zero(cls.name)
+        if so is not None and init is not None:
+            # _sizeof summarised as Array(count, self.subcon): count x subcon
+            arr = [c for c in ast.walk(so) if isinstance(c, ast.Call) and isinstance(c.func, ast.Name) and c.func.id == "Array"
+                   and len(c.args) == 2 and dotted(c.args[1]) == "self.subcon"]
+            if arr:
+                inner = self._through_init(cls, init, call, env, depth)
+                sub = inner.inner if isinstance(inner, Wrap) else (inner.elem if isinstance(inner, Arr) else None)
+                cnt_param = None
+                for st in ast.walk(init):
+                    if isinstance(st, ast.Assign) and dotted(st.targets[0]) == "self.count" and isinstance(st.value, ast.Name):
+                        cnt_param = st.value.id
+                if sub is not None and cnt_param is not None:
+                    params = [a.arg for a in init.args.args][1:]
+                    node = None
+                    if cnt_param in params and params.index(cnt_param) < len(call.args):
+                        node = call.args[params.index(cnt_param)]
+                    for k in call.keywords:
+                        if k.arg == cnt_param:
+                            node = k.value
+                    if node is not None:
+                        return Wrap(cls.name, Arr(self.const_b(node, env), sub), None, call)
         if init is not None:
             return self._through_init(cls, init, call, env, depth)
         return self._ext_init(base, cls.name, call.args, call.keywords, env, depth, call)
@@ -557,10 +582,23 @@ class Layouts:
         if base in ("Adapter", "Subconstruct", "Mapping", "Validator", "SymmetricAdapter", "Tunnel"):
             if not args:
                 return Zero(tag)
-            return Wrap(tag, unn(self.eval_con(args[0], env, depth + 1)), None, node)
+            w = Wrap(tag, unn(self.eval_con(args[0], env, depth + 1)), None, node)
+            w.subcon_nodes = {id(self._origin(args[0], env))}
+            return w
         if base == "Construct":
             return Zero(tag)
         raise Unknown(f"construct base {base} of {tag}")
+
+    def _origin(self, node, env):
+        """follow parameter bindings back to the AST node written at the outermost call site"""
+        for _ in range(10):
+            if isinstance(node, ast.Name):
+                v = env.get_local(node.id)
+                if isinstance(v, tuple) and len(v) == 2 and isinstance(v[0], ast.AST):
+                    node, env = v
+                    continue
+            break
+        return node
 
     def _through_init(self, cls, init, call, env, depth):
         from .loader import enclosing_class
@@ -652,3 +690,239 @@ def find_construct_calls(ctx, mod, names):
             r = ctx.prog.resolve(mod, node.id)
             if r and r[0] == "ext" and r[1] in CONSTRUCT_MODS and r[2] in names:
                 yield node, r[2]
+
+
+# ---------------------------------------------------------------- description
+class Describer:
+    """Turns a layout into rows {path, off, size, leaf, wrap, ann} where `ann` carries the canonical
+    (E-AFF) form of every expression, mapping table and enum attached to the field."""
+
+    def __init__(self, layouts):
+        self.L = layouts
+        self.ctx = layouts.ctx
+        self.prog = layouts.prog
+        self.folder = layouts.folder
+
+    # canonical form of an expression argument ---------------------------------
+    def canon(self, node, mod, depth=0):
+        from .terms import Evaluator, Term, inline_call
+        if node is None:
+            return None
+        if isinstance(node, L):
+            return node.desc()
+        if isinstance(node, (list, tuple)):
+            return [self.canon(n, mod, depth) for n in node]
+        if not isinstance(node, ast.AST):
+            return self._val(node)
+        const_of = self.folder.const_of(mod)
+
+        def func_of(name):
+            r = self.prog.resolve(mod, name)
+            if r and r[0] == "func":
+                m2 = r[2]
+                return (r[1], lambda env: Evaluator(env=env, const_of=self.folder.const_of(m2), func_of=None, this_names=("this",)))
+            if r and r[0] == "assign" and isinstance(r[1], ast.Lambda):
+                m2 = r[2]
+                return (r[1], lambda env: Evaluator(env=env, const_of=self.folder.const_of(m2), func_of=None, this_names=("this",)))
+            return None
+
+        if isinstance(node, ast.Lambda):
+            params = [a.arg for a in node.args.args]
+            ev = Evaluator(const_of=const_of, func_of=func_of, this_names=(params[0],) if params else ())
+            env = {p: Term.atom("ctx" if i else "this") for i, p in enumerate(params)}
+            env.pop(params[0], None) if params else None
+            ev.env = env
+            return ev.ev(node.body).key()
+        if isinstance(node, ast.Name):
+            r = self.prog.resolve(mod, node.id)
+            if r and r[0] == "func":
+                fn = r[1]
+                params = [a.arg for a in fn.args.args]
+                fake = ast.Call(func=node, args=[ast.Name(id="this", ctx=ast.Load())], keywords=[])
+                ev = Evaluator(const_of=const_of, func_of=func_of, this_names=("this",))
+                t = inline_call(fn, fake, ev, lambda env: Evaluator(env=env, const_of=self.folder.const_of(r[2]), func_of=None, this_names=("this",)))
+                if t is not None:
+                    return t.key()
+                return "func:" + node.id
+            if r and r[0] == "class":
+                mem = self.folder.enum_members(r[1])
+                if mem is not None:
+                    return "enum:" + r[1].name + "{" + ",".join(f"{k}={self._val(v)}" for k, v in mem.items()) + "}"
+                return "class:" + r[1].name
+            if r and r[0] == "assign" and isinstance(r[1], ast.Lambda):
+                return self.canon(r[1], r[2], depth + 1)
+        try:
+            v = self.folder.ev(node, mod)
+            return self._val(v)
+        except NotConst:
+            pass
+        ev = Evaluator(const_of=const_of, func_of=func_of, this_names=("this", "obj_"))
+        return ev.ev(node).key()
+
+    def _val(self, v):
+        if isinstance(v, dict):
+            return "{" + ",".join(f"{self._val(k)}:{self._val(x)}" for k, x in v.items()) + "}"
+        if isinstance(v, (list, tuple)):
+            return "(" + ",".join(self._val(x) for x in v) + ")"
+        if isinstance(v, EnumVal):
+            return f"{v.cls}.{v.name}={v.value}"
+        if isinstance(v, bytes):
+            return "b:" + v.hex()
+        if isinstance(v, LambdaVal):
+            return self.canon(v.node, v.mod)
+        if isinstance(v, tuple) and len(v) == 2 and v[0] in ("class", "func"):
+            return f"{v[0]}:{getattr(v[1], 'name', '?')}"
+        return repr(v)
+
+    # annotations of one field ---------------------------------------------------
+    def annotate(self, f):
+        ann = []
+        cur = f
+        while True:
+            if isinstance(cur, Wrap):
+                mod = self._mod_of(cur)
+                if cur.tag in ("Lazy", "Optional", "Peek", "Hex", "Compiled", "Indexing"):
+                    pass
+                elif cur.tag in ("Rebuild", "Default", "ExprAdapter", "ExprSymmetricAdapter", "ExprValidator", "Enum", "EnumConstruct",
+                               "Mapping", "Filter", "NullStripped", "Slicing"):
+                    args = list(cur.extra or [])
+                    kws = []
+                    if cur.node is not None and isinstance(cur.node, ast.Call):
+                        kws = [(k.arg, k.value) for k in cur.node.keywords if k.arg]
+                    vals = [self.canon(a, mod) for a in args] + [f"{k}={self.canon(v, mod)}" for k, v in kws]
+                    ann.append(f"{cur.tag}[" + "; ".join(str(v) for v in vals) + "]")
+                elif cur.tag == "Const":
+                    ann.append(f"Const[{self._val(cur.extra)}]")
+                elif cur.node is not None and isinstance(cur.node, ast.Call) and mod is not None:
+                    # repo adapter class / factory: canonical forms of its non-construct arguments
+                    vals = []
+                    skip = getattr(cur, "subcon_nodes", set())
+                    for a in list(cur.node.args) + [k.value for k in cur.node.keywords]:
+                        if id(a) in skip:
+                            continue  # the sub-construct, described structurally
+                        vals.append(self.canon(a, mod))
+                    ann.append(f"{cur.tag}[" + "; ".join(str(v) for v in vals) + "]")
+                cur = cur.inner
+                continue
+            if isinstance(cur, Zero):
+                mod = cur.env.mod if cur.env is not None else None
+                if cur.tag in ("Computed", "Seek", "Check") and cur.extra is not None and mod is not None:
+                    ann.append(f"{cur.tag}[{self.canon(cur.extra, mod)}]")
+                elif cur.tag == "If" and mod is not None and cur.node is not None:
+                    then = cur.node.args[1] if len(cur.node.args) > 1 else None
+                    td = ""
+                    if then is not None:
+                        try:
+                            tl = unn(self.L.eval_con(then, cur.env))
+                            td = "".join(self.annotate(tl)) or tl.desc()
+                        except Unknown:
+                            td = "?"
+                    ann.append(f"If[{self.canon(cur.extra, mod)} -> {td}]")
+                elif cur.tag == "Pointer" and mod is not None:
+                    ann.append(f"Pointer[{self.canon(cur.extra[0], mod)}]")
+                elif cur.node is not None and isinstance(cur.node, ast.Call) and mod is not None and cur.tag not in ("Pass", "Tell"):
+                    vals = []
+                    for a in list(cur.node.args) + [k.value for k in cur.node.keywords]:
+                        vals.append(self.canon(a, mod) if not isinstance(a, ast.Name) or not self._is_class(a, mod) else "class:" + a.id)
+                    kw = [k.arg for k in cur.node.keywords]
+                    ann.append(f"{cur.tag}[" + "; ".join(str(v) for v in vals) + (" | kw=" + ",".join(kw) if kw else "") + "]")
+            elif isinstance(cur, Prim) and cur.kind == "const":
+                ann.append(f"Const[{self._val(cur.extra)}]")
+            elif isinstance(cur, Prim) and cur.kind == "str" and cur.extra:
+                ann.append(f"encoding[{cur.extra}]")
+            elif isinstance(cur, Dyn) and cur.tag == "Switch" and cur.node is not None:
+                mod = cur.env.mod
+                key = self.canon(cur.node.args[0], mod)
+                cases = []
+                d = cur.node.args[1]
+                if isinstance(d, ast.Dict):
+                    for k, v in zip(d.keys, d.values):
+                        try:
+                            vl = unn(self.L.eval_con(v, cur.env)).desc()
+                        except Unknown:
+                            vl = "?"
+                        cases.append(f"{self.canon(k, mod)} -> {vl}")
+                ann.append(f"Switch[{key}: " + "; ".join(cases) + "]")
+            elif isinstance(cur, Dyn) and cur.tag == "Bytes" and cur.node is not None:
+                ann.append(f"Bytes[{self.canon(cur.node.args[0], cur.env.mod)}]")
+            elif isinstance(cur, Arr) and isinstance(cur.count, Sym):
+                ann.append(f"count[{cur.count.name}]")
+            if isinstance(cur, Fixed):
+                cur = cur.inner
+                continue
+            if isinstance(cur, Arr):
+                cur = cur.elem
+                continue
+            break
+        return ann
+
+    def _is_class(self, node, mod):
+        r = self.prog.resolve(mod, node.id)
+        return bool(r and r[0] == "class" and self.folder.enum_members(r[1]) is None)
+
+    def _mod_of(self, w):
+        cands = [w.node] if w.node is not None else []
+        if isinstance(w.node, ast.Call):
+            cands += list(w.node.args) + [k.value for k in w.node.keywords]
+        for n in cands:
+            while n is not None:
+                if hasattr(n, "_module"):
+                    return n._module
+                n = getattr(n, "_parent", None)
+        return None
+
+    # rows ------------------------------------------------------------------------
+    def rows(self, lay, prefix="", off=0, out=None, depth=0):
+        out = [] if out is None else out
+        core = lay.core() if hasattr(lay, "core") else lay
+        if isinstance(core, Dyn) and core.tag in ("Prefixed", "GreedyRange"):
+            for i, p in enumerate(core.parts):
+                if isinstance(p, L):
+                    out.append({"path": f"{prefix}<{core.tag}.{i}>", "off": None, "size": self._sz(p.size), "leaf": p.core().desc() if not isinstance(p.core(), Struct) else "Struct", "wrap": list(p.wrappers()), "ann": self.annotate(p)})
+                    self.rows(p, f"{prefix}<{core.tag}.{i}>.", None, out, depth + 1)
+            return out
+        if isinstance(core, Dyn) and core.tag == "Union":
+            for nm, p in zip(getattr(core, "names", []), core.parts):
+                out.append({"path": f"{prefix}{nm}", "off": 0, "size": self._sz(p.size), "leaf": p.core().desc() if not isinstance(p.core(), Struct) else "Struct", "wrap": list(p.wrappers()), "ann": self.annotate(p)})
+                self.rows(p, f"{prefix}{nm}.", 0, out, depth + 1)
+            return out
+        if not isinstance(core, Struct) or depth > 8:
+            return out
+        for nm, f in core.fields:
+            sz = f.size
+            fc = f.core() if hasattr(f, "core") else f
+            label = nm if nm is not None else None
+            if label is not None or isinstance(fc, Zero) or (isinstance(fc, Prim) and fc.kind == "const"):
+                out.append({"path": prefix + (label or f"<{fc.tag}>"), "off": self._sz(off), "size": self._sz(sz),
+                            "leaf": "Struct" if isinstance(fc, Struct) else fc.desc(), "wrap": list(f.wrappers()), "ann": self.annotate(f)})
+            sub = fc
+            while isinstance(sub, (Fixed,)):
+                sub = sub.inner.core() if hasattr(sub.inner, "core") else sub.inner
+            if isinstance(sub, Struct):
+                self.rows(sub, prefix + (nm + "." if nm is not None else ""), off, out, depth + 1)
+            elif isinstance(sub, BitsS) and isinstance(sub.inner.core(), Struct):
+                boff = 0
+                for bn, bf in sub.inner.core().fields:
+                    if bn is not None:
+                        out.append({"path": prefix + (nm + "." if nm else "") + bn, "off": f"{self._sz(off)}+bit{boff}", "size": f"{bf.size}b",
+                                    "leaf": bf.core().desc(), "wrap": list(bf.wrappers()), "ann": self.annotate(bf)})
+                    boff += bf.size if isinstance(bf.size, int) else 0
+            elif isinstance(sub, Arr) and isinstance(sub.elem.core(), Struct) and nm is not None:
+                self.rows(sub.elem.core(), prefix + nm + "[].", off, out, depth + 1)
+            elif isinstance(sub, Zero) and sub.tag == "Pointer" and nm is not None:
+                tgt = sub.extra[1]
+                self.rows(tgt, prefix + nm + "->", 0, out, depth + 1)
+            elif isinstance(sub, Dyn) and sub.tag in ("Prefixed", "GreedyRange", "Union"):
+                self.rows(sub, prefix + (nm + "." if nm else ""), None, out, depth + 1)
+            if sz is None or off is None:
+                off = None
+            else:
+                off = sadd(off, sz)
+        return out
+
+    def _sz(self, s):
+        if isinstance(s, dict):
+            return " + ".join((str(v) if not k else f"{v}*{'*'.join(k)}") for k, v in sorted(s.items()))
+        if isinstance(s, Fraction):
+            return str(s)
+        return s
